@@ -3,3 +3,6 @@ import ShipVerif.Model.Conn
 import ShipVerif.Model.ConnMon
 import ShipVerif.Model.ConnEnum
 import ShipVerif.Proofs.ConnCert
+import ShipVerif.Model.ConnData
+import ShipVerif.Proofs.ConnTrace
+import ShipVerif.Props.ConnProps
